@@ -63,9 +63,12 @@ func StartWatchdog(limit time.Duration) {
 }
 
 var numRe = regexp.MustCompile(`\b(0x[0-9a-fA-F]+|\d+)\b`)
+var hexRe = regexp.MustCompile(`\b[0-9a-fA-F]{8,}\b`)
 
-// NormaliseMsg turns a panic value into a message class (numbers and addresses removed).
+// NormaliseMsg turns a panic value into a message class (numbers, addresses, fingerprints and
+// other long hexadecimal strings removed).
 func NormaliseMsg(s string) string {
+	s = hexRe.ReplaceAllString(s, "H")
 	s = numRe.ReplaceAllString(s, "N")
 	if len(s) > 160 {
 		s = s[:160]
